@@ -84,6 +84,26 @@ def live_types(fx):
     return live, live_adts
 
 
+def host_values(fx, scope, ctor="RuntimeValue::unguarded"):
+    """(fn, call, ok) for every application of the guard-less RuntimeValue constructor in scope"""
+    import c17
+    for p, f in sorted(fx.fns.items()):
+        if f.derived or not scope(f):
+            continue
+        for bi, t in f.calls():
+            if not (t[1].get("d") or "").endswith(ctor):
+                continue
+            a = t[2][0] if t[2] else None
+            const_like = False
+            if a and a[0] == "k":
+                const_like = True
+            if a and a[0] in ("c", "m") and not a[1][1]:
+                d = f.defs().get(a[1][0], [])
+                if len(d) == 1 and d[0][1] != "T" and d[0][2][0] == "agg" and isinstance(d[0][2][1], dict) and d[0][2][1].get("v") in ("Undefined", "Null", "Number", "Boolean", "String"):
+                    const_like = True
+            yield f, t, const_like or c17.kind_guarded(fx, f, bi)
+
+
 def run(tier):
     ck = Check("C02", tier, "type-directed trace coverage + who-may-write table + forward may-analysis of guard protection with backward liveness (guardflow) over MIR",
                ["hazards that need a callback to remove the last heap reference to a caller- or heap-rooted object (optimistic assumption)",
@@ -317,6 +337,22 @@ def run(tier):
                                                                                     guard_suffix="Guard::<T>::guard"))
     if got4 != [("bad_collect", False), ("good_collect", True)]:
         ck.closed_fail.append("G4e control failed: fixture gives %s" % got4)
+    # ---------------- G7 what the host holds is rooted by what the host holds
+    ck.rule("G7.host-values-guarded", "outside the C API (see C17 R4) `RuntimeValue::unguarded` is applied only where the value is known not to be an object "
+            "(a non-Object arm of a match on it, or a primitive built on the spot)", floor=1)
+    n7 = 0
+    for f7, t7, ok7 in host_values(fx, lambda g: g.file.startswith("src/") and not g.file.startswith("src/ffi")):
+        n7 += 1
+        ck.instance("G7.host-values-guarded", "%s: RuntimeValue::unguarded" % f7.path, F.short_span(t7[6]), ok=ok7)
+        if not ok7:
+            ck.finding("G7.host-values-guarded", "G7.host-values-guarded/%s" % (f7.parent if f7.closure else f7.path), F.short_span(t7[6]),
+                       "`%s` hands a value that may be an object to the host as `RuntimeValue::unguarded`: once the script has moved on nothing roots it, and the host "
+                       "reads back a reset (or reused) object from an `Order.payload` it still holds" % f7.path)
+    ck.anchor(n7 >= 1, "RuntimeValue::unguarded call sites outside src/ffi (found %d)" % n7)
+    got7 = sorted((f.path.split("::")[-1], ok) for f, t, ok in host_values(ctl, lambda g: g.path.startswith("c02host::") and not g.path.startswith("c02host::RuntimeValue"),
+                                                                               ctor="c02host::RuntimeValue::unguarded"))
+    if got7 != [("bad_payload", False), ("good_payload", True)]:
+        ck.closed_fail.append("G7 control failed: fixture gives %s" % got7)
     return ck.finish()
 
 
